@@ -47,6 +47,24 @@ Wire(o) ==
     [] o.cmd = "ctr"   -> [lib |-> "ctr", k |-> o.k, memory |-> o.memory, acgt |-> o.acgt, threads |-> o.threads, delete |-> TRUE]
 
 \* ------------------------------------------------------------------------
+\* The ENVIRONMENT of a run is not part of an option vector: what kind of file is behind -i (regular file, named pipe,
+\* /dev/stdin) and behind -o (regular file, /dev/stdout into a pipe), how the output location is spelled (absolute, relative,
+\* ./relative), environment variables. Wire has no argument for any of it: one vector stands for one library call whatever the
+\* environment, so the replay may run each vector in any environment the command supports and must find the same result.
+\* A stream can only be the source of a command that reads its input once, and only the sink of a command that writes its
+\* output front to back:
+SinglePass(o) == o.cmd \in {"cgr", "min"} \/ (o.cmd = "oligo" /\ o.counts)
+Streams(o)    == o.cmd \in {"cgr", "min"} \/ (o.cmd = "oligo" /\ (o.counts \/ o.stdin))
+\* (the minimiser listings tell the format from the file name, which /dev/stdin does not have)
+SrcKinds(o) == IF o.cmd = "oligo" /\ o.stdin THEN {"file"}
+               ELSE IF ~SinglePass(o) THEN {"file"}
+               ELSE IF o.cmd = "min" THEN {"file", "fifo"} ELSE {"file", "fifo", "devstdin"}
+DstKinds(o) == IF Streams(o) THEN {"file", "pipe"} ELSE {"file"}
+Spellings == {"abs", "rel", "dotrel"}
+\* the writer strategy follows: a streamed source cannot be memory-mapped
+StreamsNeverMapped(o) == (o.cmd = "oligo" /\ Accepts(o) /\ Wire(o).path = "mmap") => ~Streams(o)
+
+\* ------------------------------------------------------------------------
 \* meta-properties of the wiring (C15's "and nothing more"), stated for one vector o against every vector that
 \* differs from it in exactly one option
 WireBut(x, y, fs) == DOMAIN x = DOMAIN y /\ \A g \in (DOMAIN x) \ fs : x[g] = y[g]
@@ -69,5 +87,6 @@ AcceptStable(o) == /\ \A t \in Threads : Accepts([o EXCEPT !.threads = t]) = Acc
                    /\ Has(o, "acgt") => Accepts([o EXCEPT !.acgt = ~o.acgt]) = Accepts(o)
                    /\ Has(o, "stdin") => Accepts([o EXCEPT !.stdin = ~o.stdin]) = Accepts(o)
                    /\ Has(o, "alt") => Accepts([o EXCEPT !.alt = ~o.alt]) = Accepts(o)
-MetaOf(o) == Accepts(o) => PresetOnlyDelim(o) /\ HeaderOnlyHeader(o) /\ ThreadsOnlyThreads(o) /\ CountsOnlyNorm(o) /\ AcgtOnlyRender(o)
+MetaOf(o) == /\ StreamsNeverMapped(o)
+             /\ Accepts(o) => PresetOnlyDelim(o) /\ HeaderOnlyHeader(o) /\ ThreadsOnlyThreads(o) /\ CountsOnlyNorm(o) /\ AcgtOnlyRender(o)
 =============================================================================
